@@ -11,13 +11,15 @@ THEOREMS = ["C49_dowild_total", "C49_dowild_sound_complete", "C49_dowild_codes",
             "C49_last_match_wins", "C49_decision_unique", "C49_excluded_parent", "C49_trim_eq_git", "C49_pattern_eq_git_refuted",
             "C49_pattern_eq_git_partial"]
 MODEL_FILES = ["Gitignore.v"]
-MODELLED = ("plumbing/format/gitignore: pattern.go ParsePattern, pattern.Match, simpleNameMatch, globMatch, wildmatch, dowild "
-            "(all flags, abort codes, bracket loop, matchPOSIXClass), matcher.go matcher.Match, scope.go NewScope/Descend/Match/"
-            "RootPatterns/DirPatterns, dir.go readIgnoreFile (Model/Gitignore.v); spec: git 2.39.5 dir.c (add_patterns_from_buffer, "
-            "trim_trailing_spaces, parse_path_pattern, match_basename, match_pathname, last_matching_pattern, prep_exclude) and "
-            "wildmatch.c (Spec/GitIgnore.v), declarative glob semantics (Spec/Glob.v); not modelled: billy filesystem access, "
-            "bufio.Scanner's 64 KiB line limit, the multi-byte Unicode spaces of strings.TrimSpace, the deprecated flat "
-            "ReadPatterns/Matcher walk, LoadGlobalPatterns/LoadSystemPatterns (config lookup), core.ignorecase")
+MODELLED = ("plumbing/format/gitignore: pattern.go ParsePattern (with the repaired trimTrailingSpaces), pattern.Match, simpleNameMatch, "
+            "globMatch, wildmatch, dowild (all flags, abort codes, bracket loop, matchPOSIXClass), matcher.go matcher.Match, scope.go "
+            "NewScope/Descend/Match/RootPatterns/DirPatterns, dir.go readIgnoreFile incl. the repaired BOM skip (Model/Gitignore.v); spec: git 2.39.5 "
+            "dir.c (add_patterns_from_buffer, trim_trailing_spaces, parse_path_pattern, match_basename, match_pathname, last_matching_pattern, "
+            "prep_exclude) and wildmatch.c (Spec/GitIgnore.v), declarative glob semantics (Spec/Glob.v); not modelled: billy filesystem access, "
+            "bufio.Scanner's 64 KiB line limit, the multi-byte Unicode spaces of strings.TrimSpace, the deprecated flat ReadPatterns/Matcher walk, "
+            "LoadGlobalPatterns/LoadSystemPatterns (config lookup), core.ignorecase; index-out-of-range freedom of dowild is by construction of the "
+            "list-based model and tied by the correspondence (a panic of the implementation is always reported), not a separate theorem; model branches "
+            "exercised only by the uncompared dead-code parity cases: WM_PATHNAME / WM_CASEFOLD paths of dowild (gitignore always passes flags = 0)")
 TRUSTED = [
     "C-impl: harness/cmd/c49 (gitignore.VerifDowild / VerifPatternFields hooks, -tags verif; the Scope walk of utils/merkletrie/filesystem "
     "re-enacted over memfs) vs Model/Gitignore on every case",
@@ -34,7 +36,7 @@ RULE = ("case = a small directory tree, ignore files at the root / in sub-direct
         "triples for ParsePattern/Match; non-trivial = some ignore file has a pattern line / the pattern has a glob-special byte; distinct by content")
 LEVEL_NOTE = ("trusted: Coq 8.16.1 kernel; the correspondence harness; S is a transcription of git 2.39.5 validated against the binary on every run. "
               "Theorems: dowild total; dowild (flags 0) sound and complete for a declarative glob semantics on the fragment literal/?/*/**/escapes/"
-              "simple bracket sets, and equal to git's dowild there; last-match-wins; excluded parent; go-git = git refuted with witnesses "
+              "bracket sets without POSIX classes, and equal to git's dowild there; the repaired trailing-space rule equals git's; last-match-wins; excluded parent; go-git = git refuted with witnesses "
               "and proved for ignore files made of plain (non-negated, slash-free) name patterns at every level")
 
 # ---------------------------------------------------------------- generators
